@@ -89,6 +89,11 @@ def matrices(rng, dim=3, classes=None):
         P = I.copy()
         P[:3, :3] *= -1
         out += emit("mirror_point", P)
+    # linear part differs from the identity by the same constant in every entry: defeats
+    # peak-to-peak "allclose" shortcuts although it is far from the identity
+    U = I.copy()
+    U[:dim, :dim] += 0.5
+    out += emit("offset_ones", U)
     neg = I.copy()
     neg[:dim, :dim] = np.diag([-1.5] + [0.7] * (dim - 1))
     out += emit("aniso_mirror", neg)
